@@ -1806,6 +1806,9 @@ class Engine:
                             tests.append(o)
                         elif isinstance(o, ast.Name) and self._is_bool(st.env.get(o.id)) and not _is_k(st.env.get(o.id)):
                             flags.append(_Val.of(st.env[o.id]))
+                        elif isinstance(o, ast.Call) and ((dotted(o.func) or "") in self.BOOL_CALLS
+                                                          or (isinstance(o.func, ast.Attribute) and "." + o.func.attr in self.BOOL_CALLS)):
+                            flags.append(o)             # a predicate called in place: 2 * np.iscomplexobj(m)
         # flags held by variables first, then the tests written in place, innermost first: a test is read in each state, after what it depends on
         # has been decided there
         states = fork_on(flags + ifexps + tests[::-1], states)
